@@ -32,6 +32,7 @@ func init() {
 			{"C04-R4b", "discarded error then dereference on the request layer", c04r4b},
 			{"C04-R4c", "a watch record that may be absent is dereferenced only after a nil test", c04r4c},
 			{"C04-R6", "every request of a real type reaches the classifier", c04r6},
+			{"C04-R7", "a state-of-the-world unsubscribe is honoured whatever its nonce", c04r7},
 		},
 	})
 }
@@ -1030,4 +1031,66 @@ func helperReturnsField(v ssa.Value, from *ssa.Function, f *types.Var) bool {
 		}
 	}
 	return n > 0
+}
+
+// C04-R7: an unsubscribe is honoured whatever its nonce. In state-of-the-world xDS "no resource names" for a non-wildcard
+// type is the client's last word about that type - it sends nothing more for it - so it cannot be discarded as a stale
+// request (a push in flight makes its nonce the old one exactly then). In ShouldRespond every path to a return on the
+// stale-nonce edge has passed the shouldUnsubscribe test.
+func c04r7(c *Ctx) {
+	p := c.P
+	fn := p.Func(pkgXdsLib, "", "ShouldRespond")
+	unsub := p.FuncObj(pkgXdsLib, "", "shouldUnsubscribe")
+	var stale []Edge
+	for _, i := range allIfs(fn) {
+		v, neg := stripNot(i.Cond)
+		// the comparison may be the last operand of a conjunction: look through the phi-free BinOp only
+		b, ok := v.(*ssa.BinOp)
+		if !ok || (b.Op != token.EQL && b.Op != token.NEQ) {
+			continue
+		}
+		isNonce := func(v ssa.Value) bool { return loadOfFieldNamed(v, "ResponseNonce") }
+		isSent := func(v ssa.Value) bool { return loadOfFieldNamed(v, "NonceSent") }
+		if !((isNonce(b.X) && isSent(b.Y)) || (isNonce(b.Y) && isSent(b.X))) {
+			continue
+		}
+		idx := 0 // edge on which they differ
+		if (b.Op == token.EQL) != neg {
+			idx = 1
+		}
+		stale = append(stale, Edge{i.Block(), idx})
+	}
+	c.Check("ShouldRespond compares the nonce with the one sent", fn.Pos(), len(stale) >= 1, "no comparison of ResponseNonce with NonceSent")
+	isUnsub := func(ins ssa.Instruction) bool { return isCallTo(ins, unsub) }
+	n := 0
+	for _, e := range stale {
+		// returns reachable from the stale edge before anything else decides
+		seen := map[*ssa.BasicBlock]bool{}
+		st := []*ssa.BasicBlock{e.To()}
+		for len(st) > 0 {
+			b := st[len(st)-1]
+			st = st[:len(st)-1]
+			if seen[b] {
+				continue
+			}
+			seen[b] = true
+			if r, ok := b.Instrs[len(b.Instrs)-1].(*ssa.Return); ok {
+				n++
+				hit := pathAvoiding(fn, nil, isUnsub, func(ins ssa.Instruction) bool { return ins == ssa.Instruction(r) })
+				// only paths THROUGH the stale edge matter: the return must be dominated by the edge's target
+				if e.To().Dominates(b) || e.To() == b {
+					c.Check("a stale-nonce request is dismissed only after the unsubscribe test", r.Pos(), hit == nil,
+						"ShouldRespond can dismiss a request as stale (nonce differs from the one last sent) before it looked whether the request is an unsubscribe: a client that drops its last watch of a type while a push is in flight sends exactly such a request and nothing more for that type, so the record keeps the old names and every later push keeps sending a type the client no longer watches")
+				}
+				continue
+			}
+			for _, s := range b.Succs {
+				if e.To().Dominates(s) {
+					st = append(st, s)
+				}
+			}
+		}
+	}
+	c.Check("stale-nonce returns found", fn.Pos(), n >= 1, "no return on the stale-nonce edge")
+	c.Floor(3)
 }
